@@ -209,4 +209,11 @@ theorem verify_equality_source_guard {G : Type} (o : GroupOps G) (pk : PubKey G)
 theorem proof_len_guard_from_source (a b : Nat) :
     evalGuard Gen.proofLenGuard [(a : Int), (b : Int)] = (a != b) := proofLen_shape_spec a b
 
+/-- **request consistency is set equality in the source**: the set of names in
+`eq_proof.revealed_attrs` and the set of proven predicates are compared with the requested sets
+with `!=` (the model's `pairConsistent`); "every requested name is present" or "as many proofs as
+predicates, each one requested" break it -/
+theorem request_consistency_from_source :
+    Gen.revealedSetEquality = true ∧ Gen.predicateSetEquality = true := ⟨rfl, rfl⟩
+
 end CL.C02
